@@ -1637,19 +1637,19 @@ class NLDFAuxiliaryPlan(ABC):
             vf_qg[loc] = vfeat[i]
             i += 1
         for j, k in self._l1_dots:
-            vfeat[i] *= self.nspin
+            vfeat_i = vfeat[i] * self.nspin
             if j == -1:
                 target = vdrho
             else:
                 loc = self._l1_start_locs[j]
                 target = vf_qg[loc : loc + 3]
-            target[:] += vfeat[i] * l1cache[k]
+            target[:] += vfeat_i * l1cache[k]
             if k == -1:
                 target = vdrho
             else:
                 loc = self._l1_start_locs[k]
                 target = vf_qg[loc : loc + 3]
-            target[:] += vfeat[i] * l1cache[j]
+            target[:] += vfeat_i * l1cache[j]
             i += 1
         # self._clear_l1_cache(spin)
 
@@ -1826,7 +1826,7 @@ class NLDFAuxiliaryPlan(ABC):
             functional derivatives with respect to the nonlocal
             density integrals.
         """
-        vfeat[:] *= self.nspin
+        vfeat = vfeat * self.nspin
         if vf is None:
             vf = self.zero_coefs_full(vfeat.shape[1])
         if self.coef_order == "qg":
